@@ -114,6 +114,15 @@ def cache_obls(prefix):
             defs["VP_API"] = 1
         if env:
             defs["VP_ENV"] = 1
+        # which reachability witnesses exist for this shape (concrete per query)
+        if (op in (INS, ERA, PRU) and "1" in sh) or (op == REL and "3" in sh) or (env and "1" in sh):
+            defs["VP_W_FREED"] = 1
+        if op == REL and "3" in sh:
+            defs["VP_W_RELLAST"] = 1
+        if op == REL and "2" in sh:
+            defs["VP_W_RELLRU"] = 1
+        if op == LOOK and ("1" in sh or "2" in sh):
+            defs["VP_W_HIT"] = 1
         name = "%s.cache-%s-%s-S%s%s" % (prefix, "api" if api else "shard", CACHE_OPS[op], sh or "none", "-env" if env else "")
         out.append(Obl(name, "C10/cache.c", include_real=["util/cache.c"], kit=KIT, defs=defs,
                        unwind=18,
